@@ -40,6 +40,7 @@ type Observer interface {
 	TCPWrite(c *TCPConn, b []byte)
 	TCPAccepted(l *TCPListener, c *TCPConn)
 	TCPClosed(c *TCPConn, how string)
+	TCPReadEnd(c *TCPConn, err error)
 }
 
 type SockInfo struct {
@@ -365,7 +366,7 @@ func (n *Net) SendUDP(from, to *net.UDPAddr, payload []byte) {
 			dd = &cp
 			extra = lat/2 + 1
 		}
-		k.At(k.Now()+lat+extra, fmt.Sprintf("net:%s:%s#%d.%d", flow, what, nth, c), func() { n.deliverUDP(dd) })
+		k.At(k.Now()+lat+extra, fmt.Sprintf("net:%s:%s#%06d.%d", flow, what, nth, c), func() { n.deliverUDP(dd) })
 	}
 }
 
@@ -531,6 +532,8 @@ type TCPConn struct {
 	Scripted bool
 	BytesIn  int
 	BytesOut int
+	Arrived  int // bytes that reached this endpoint's receive buffer
+	nextArr  int64 // arrival instant of the last byte sent so far (stream order is preserved)
 }
 
 func (c *TCPConn) LocalAddr() net.Addr  { return c.laddr }
@@ -659,6 +662,14 @@ func (c *TCPConn) cutsFor() (cuts, reads []int) {
 }
 
 func (c *TCPConn) Read(p []byte) (int, error) {
+	n, err := c.read(p)
+	if err != nil && c.N.Obs != nil {
+		c.N.Obs.TCPReadEnd(c, err)
+	}
+	return n, err
+}
+
+func (c *TCPConn) read(p []byte) (int, error) {
 	if c.N.Obs != nil {
 		c.N.Obs.TCPReadCall(c)
 	}
@@ -768,9 +779,21 @@ func (c *TCPConn) Write(p []byte) (int, error) {
 		chunk := data[i : i+sz]
 		i += sz
 		peer := c.peer
-		k.At(k.Now()+lat+int64(ci), fmt.Sprintf("seg:%s@%d", c.Name, off+i), func() { peer.arrive(chunk) })
+		k.At(c.arrivalSlot(lat+1), fmt.Sprintf("seg:%s@%012d", c.Name, off+i), func() { peer.arrive(chunk) })
 	}
 	return len(p), nil
+}
+
+// arrivalSlot returns a strictly increasing arrival instant for the next thing sent.
+func (c *TCPConn) arrivalSlot(d int64) int64 {
+	c.mu.Lock()
+	defer c.mu.Unlock()
+	at := c.N.K.Now() + d
+	if at <= c.nextArr {
+		at = c.nextArr + 1
+	}
+	c.nextArr = at
+	return at
 }
 
 func (c *TCPConn) arrive(b []byte) {
@@ -788,6 +811,7 @@ func (c *TCPConn) arrive(b []byte) {
 		return
 	}
 	c.in.buf = append(c.in.buf, b...)
+	c.Arrived += len(b)
 	c.mu.Unlock()
 	c.wakeup()
 }
@@ -830,7 +854,7 @@ func (c *TCPConn) CloseWrite() error {
 	c.mu.Unlock()
 	lat := c.N.latency(c.laddr.IP, c.raddr.IP, c.Name)
 	peer := c.peer
-	c.N.K.At(c.N.K.Now()+lat+1000, "fin:"+c.Name, func() { peer.arriveFIN(false) })
+	c.N.K.At(c.arrivalSlot(lat+2000000), "fin:"+c.Name, func() { peer.arriveFIN(false) })
 	return nil
 }
 
@@ -864,7 +888,7 @@ func (c *TCPConn) closeHow(rst bool) error {
 		lat := c.N.latency(c.laddr.IP, c.raddr.IP, c.Name)
 		peer := c.peer
 		isRst := rst
-		c.N.K.At(c.N.K.Now()+lat+1000, "fin:"+c.Name, func() { peer.arriveFIN(isRst) })
+		c.N.K.At(c.arrivalSlot(lat+2000000), "fin:"+c.Name, func() { peer.arriveFIN(isRst) })
 	}
 	c.wakeup()
 	return nil
